@@ -1,8 +1,123 @@
-(** C17 — property theorems only (proved in Tbl/LinearHashProofs.v). *)
-From OxiVerif Require Import Tbl.LinearHash.
-From Coq Require Import List NArith.
+(** C17 — property theorems only (proved in Tbl/LinearHashProofs*.v).
 
-(* placeholder until the refinement proof lands: the empty table is empty *)
-Theorem C17_empty_iter : iter empty = nil.
-Proof. reflexivity. Qed.
-Print Assumptions C17_empty_iter.
+    Vocabulary (all defined in Tbl/LinearHashProofsCore.v / LinearHashProofs.v):
+    - [TI sbits hash t]   the table invariant (size 0 or a power of two >= 16 that is
+                          addressable with [sbits] status bits, [len] = number of
+                          occupied slots, [free] <= number of FREE slots and >= 1 for a
+                          non-empty slot array, stored status = status of the hash,
+                          no value twice, every occupied slot reachable from its home
+                          index by cyclic probing without crossing a FREE slot);
+    - [abs t]             the elements in the occupied slots;
+    - [spec_step]         the reference finite set (duplicate-free list);
+    - [out_agrees]        result agreement (lists up to permutation; a partially
+                          consumed drain hands out min(j,len) distinct elements);
+    - [op_ok] / [ops_ok]  the capacity an operation requests passes
+                          [Status::check_capacity] (the real code panics otherwise);
+    - [RDiverge]          the model's value for a probing loop that does not terminate. *)
+From Coq Require Import List NArith Permutation.
+From OxiVerif Require Import Tbl.LinearHash Tbl.LinearHashProofsBase
+  Tbl.LinearHashProofsCore Tbl.LinearHashProofs.
+Import ListNotations.
+
+(** every single operation, for any hash function and any number of status bits *)
+Theorem C17_step : forall (sbits : N) (hash : N -> N) (t : tbl) (o : op) (t' : tbl) (r : out),
+  TI sbits hash t -> op_ok sbits t o -> step sbits hash t o = (t', r) ->
+  r <> RDiverge /\ TI sbits hash t' /\ NoDup (abs t') /\
+  Permutation (abs t') (fst (spec_step (abs t) o)) /\
+  out_agrees o (abs t) r.
+Proof. exact step_correct. Qed.
+Print Assumptions C17_step.
+
+(** arbitrary operation sequences from the empty table *)
+Theorem C17_run : forall (sbits : N) (hash : N -> N) (ops : list op),
+  ops_ok sbits hash empty ops ->
+  sim_trace [] ops (run sbits hash empty ops) /\ TI sbits hash (final sbits hash empty ops).
+Proof. exact run_correct. Qed.
+Print Assumptions C17_run.
+
+Theorem C17_run_from : forall (sbits : N) (hash : N -> N) (ops : list op) (t : tbl),
+  TI sbits hash t -> ops_ok sbits hash t ops ->
+  sim_trace (abs t) ops (run sbits hash t ops) /\ TI sbits hash (final sbits hash t ops).
+Proof. exact run_correct_from. Qed.
+Print Assumptions C17_run_from.
+
+(** no probing loop diverges *)
+Theorem C17_run_terminates : forall (sbits : N) (hash : N -> N) (ops : list op),
+  ops_ok sbits hash empty ops -> ~ In RDiverge (run sbits hash empty ops).
+Proof. exact run_terminates. Qed.
+Print Assumptions C17_run_terminates.
+
+(** the individual operations *)
+Theorem C17_lookup : forall (sbits : N) (hash : N -> N) (t : tbl) (k : N),
+  TI sbits hash t ->
+  exists r, lookup sbits hash t k = Some r /\
+    ((r = Some k /\ In k (abs t)) \/ (r = None /\ ~ In k (abs t))).
+Proof. exact lookup_spec. Qed.
+Print Assumptions C17_lookup.
+
+Theorem C17_insert : forall (sbits : N) (hash : N -> N) (t : tbl) (k : N),
+  TI sbits hash t -> reserve_fits sbits t 1 ->
+  exists t' b, insert sbits hash t k = Some (t', b) /\ TI sbits hash t' /\
+    ((b = true /\ ~ In k (abs t) /\ Permutation (abs t') (k :: abs t)) \/
+     (b = false /\ In k (abs t) /\ Permutation (abs t') (abs t))).
+Proof. exact insert_spec. Qed.
+Print Assumptions C17_insert.
+
+Theorem C17_remove : forall (sbits : N) (hash : N -> N) (t : tbl) (k : N),
+  TI sbits hash t ->
+  exists t' r, remove sbits hash t k = Some (t', r) /\ TI sbits hash t' /\
+    ((r = Some k /\ In k (abs t) /\ Permutation (abs t) (k :: abs t')) \/
+     (r = None /\ ~ In k (abs t) /\ t' = t)).
+Proof. exact remove_spec. Qed.
+Print Assumptions C17_remove.
+
+Theorem C17_reserve : forall (sbits : N) (hash : N -> N) (t : tbl) (a : N),
+  TI sbits hash t -> reserve_fits sbits t a ->
+  exists t', reserve t a = Some t' /\ TI sbits hash t' /\ Permutation (abs t') (abs t) /\
+    ((a = 0%N /\ size t' = 0) \/ (a + 1 <= free t')%N).
+Proof. exact reserve_spec. Qed.
+Print Assumptions C17_reserve.
+
+Theorem C17_retain : forall (sbits : N) (hash : N -> N) (t : tbl) (pred : N -> bool),
+  TI sbits hash t ->
+  exists t' dropped, retain t pred = Some (t', dropped) /\ TI sbits hash t' /\
+    Permutation (abs t') (filter pred (abs t)) /\
+    Permutation dropped (filter (npred pred) (abs t)).
+Proof. exact retain_spec. Qed.
+Print Assumptions C17_retain.
+
+Theorem C17_iter_len : forall (sbits : N) (hash : N -> N) (t : tbl),
+  TI sbits hash t ->
+  iter t = abs t /\ NoDup (iter t) /\ len t = N.of_nat (length (abs t)).
+Proof. exact iter_len_spec. Qed.
+Print Assumptions C17_iter_len.
+
+Theorem C17_clear : forall (sbits : N) (hash : N -> N) (t : tbl),
+  TI sbits hash t -> TI sbits hash (clear t) /\ abs (clear t) = [].
+Proof. exact clear_spec. Qed.
+Print Assumptions C17_clear.
+
+Theorem C17_drain : forall (sbits : N) (hash : N -> N) (t : tbl),
+  TI sbits hash t ->
+  TI sbits hash (fst (drain t)) /\ abs (fst (drain t)) = [] /\ snd (drain t) = abs t.
+Proof. exact drain_spec. Qed.
+Print Assumptions C17_drain.
+
+Theorem C17_with_capacity : forall (sbits : N) (hash : N -> N) (c : N),
+  (next_capacity c <= 2 ^ sbits)%N ->
+  TI sbits hash (with_capacity c) /\ abs (with_capacity c) = [].
+Proof. exact with_capacity_spec. Qed.
+Print Assumptions C17_with_capacity.
+
+Theorem C17_empty : forall (sbits : N) (hash : N -> N), TI sbits hash empty.
+Proof. exact TI_empty. Qed.
+Print Assumptions C17_empty.
+
+(** the hypotheses are satisfiable by a non-trivial reachable state (31 status
+    bits, total collisions, after growth, tombstones and tombstone reuse) *)
+Theorem C17_nonvacuous :
+  TI 31 (hash_fn 0) ex_state /\
+  op_ok 31 ex_state (OInsert 99) /\ op_ok 31 ex_state (ORetain 2 0) /\
+  In Tomb (data ex_state) /\ size ex_state = 32 /\ len ex_state = 12%N.
+Proof. exact ex_nonvacuous. Qed.
+Print Assumptions C17_nonvacuous.
